@@ -26,6 +26,8 @@ package runtime
 //@ | ContextCheck.forstmt, ContextCheck.breakstmt, ContextCheck.continuestmt, elemsof(bool)
 
 //@ functype FuncCheck
+// a checker is called with the scope cursor in place (add_pattern declares its alias there)
+//@ requires ctx.stackCur != nil
 //@ modifies checkerFrame
 
 // function tables never hold a nil checker
